@@ -79,6 +79,15 @@ CHECKS.update({
 })
 NOT_YET = {}
 
+CHECKS.update({
+ "C15": dict(cat="exploration", tech="runtime monitor: differential of two real CLI runs per project (SDL schema files vs. reference introspection JSON of the same model): check verdicts on valid documents and single-fault mutants, generated declaration files compared alias by alias through a TypeScript-subset evaluator",
+   text="For each generated valid project the merged schema model is rendered as the result of the standard introspection query (8 styles: every key present/optional keys absent x with/without introspection meta types x shuffled/definition order; pretty/compact JSON) and a second project is written that differs only in the schema file and the schema glob. Both go through the real CLI: `check generate` on the valid project and `check` on three single-fault mutants of the operation document. Exit verdicts must agree; schema, resolver and operation declaration files of both routes are parsed and every non-generic alias (per namespace, by exported name) must have the same canonical denotation, and the same value exports.",
+   note="aliases of the introspection meta types (__Schema, __Type, ...) present only in the JSON route are not compared; comments (JSDoc descriptions, @deprecated) are outside the comparison as the property says; interfaces-of-interfaces are carried but have no observable effect on check/generate (implementers list every ancestor)", ref="DESIGN.md §5 C15"),
+ "C17": dict(cat="exploration", tech="runtime monitor: byte comparison of repeated fresh-process CLI runs (fresh hash keys per process), of in-process library output against CLI files, and verdict/alias-denotation comparison under permutations of schema definitions inside and across files",
+   text="A: generated projects with 0-4 injected faults are run 5 (quick) / 8 (thorough) times through the real CLI, each a fresh process; exit status, stdout, stderr and the hash of every file of the project tree must be identical. B: for projects with schemaModuleSpecifier the in-process library route (mirror of crates/cli/src/generate.rs) must produce exactly the bytes the CLI wrote for schema, resolver and operation declaration files and their mappings. C: schema definitions (extensions included) are shuffled and redistributed over 1-3 files twice per project; `check generate` must give the same verdict and every alias of every declaration file the same canonical denotation.",
+   note="hash keys are not observed directly: each process draws its own (std RandomState); a difference that needs a specific key pair may need more runs than budgeted; the CLI's file load order (directory walk) is taken from the schema map's sources for part B", ref="DESIGN.md §5 C17"),
+})
+
 def main():
     props = [json.loads(l) for l in open(os.path.join(ROOT, "properties.jsonl"))]
     checks = []
